@@ -182,7 +182,13 @@ def run(ctx):
         d = observe(env.into_data, x, U)
         ctx.count('serialise_checked')
         if d.kind != 'value':
-            ctx.violation('serialise-uses-accepting-member', sub, i, {**wit, 'into_data': d.brief()}, mech='into_data-raised')
+            # a union problem only if some member that accepts x can serialise it on its own
+            own_ok = any(observe(env.into_data, x, A).kind == 'value' for A in members_py
+                         if observe(env.convert, x, A).kind == 'value')
+            if own_ok:
+                ctx.violation('serialise-uses-accepting-member', sub, i, {**wit, 'into_data': d.brief()}, mech='into_data-raised')
+            else:
+                ctx.count('member_itself_cannot_serialise')
             return
         # a member "accepts" the typed value when its own fast pass takes it, or when convert(x, A_k) gives x back
         candidates = []
